@@ -249,7 +249,117 @@ def write_replay(prop, harness, tier, v):
     return path
 
 
+def native_build_c18():
+    key = file_hash([os.path.join(REPO, "reproc/src/process.windows.c"), os.path.join(REPO, "reproc/src/utf.windows.c"), os.path.join(REPO, "reproc/src/process.h"),
+                     os.path.join(REPO, "reproc/src/handle.h"), os.path.join(REPO, "reproc/include/reproc/reproc.h"),
+                     os.path.join(VERIF, "winstub/windows.h"), os.path.join(VERIF, "winstub/h_c18.c")]) + "-c18"
+    out = os.path.join(BUILD, key)
+    exe = os.path.join(out, "h_c18")
+    if os.path.exists(exe):
+        return exe
+    if os.path.isdir(BUILD):
+        for d in os.listdir(BUILD):
+            if d.endswith("-c18") and d != key:
+                shutil.rmtree(os.path.join(BUILD, d), ignore_errors=True)
+    os.makedirs(out, exist_ok=True)
+    parallel([["gcc", "-std=gnu11", "-g", "-O1", "-fsanitize=address,undefined", "-fno-sanitize-recover=undefined", "-D_WIN32", "-DNDEBUG",
+               "-I", os.path.join(VERIF, "winstub"), "-I", os.path.join(REPO, "reproc/include"), "-I", os.path.join(REPO, "reproc/src"),
+               os.path.join(VERIF, "winstub/h_c18.c"), os.path.join(REPO, "reproc/src/process.windows.c"), os.path.join(REPO, "reproc/src/utf.windows.c"),
+               "-o", exe]])
+    return exe
+
+
+def finish_native(prop, tier, level, cov, viols, wall, assumptions, harness):
+    """viols: list of dicts with clause, key, msg, replay (dict written to the replay file)."""
+    known = {e["key"]: e for e in load_known() if e.get("property") == prop and e.get("status") == "known"}
+    os.makedirs(os.path.join(VERIF, "evidence"), exist_ok=True)
+    uniq = {}
+    for v in viols:
+        uniq.setdefault(v["key"], v)
+    new = {k: v for k, v in uniq.items() if k not in known}
+    cov["known_findings_seen"] = sorted(k for k in uniq if k in known)
+    ev = {"property_id": prop, "tier": tier, "seed": int(os.environ.get("VERIF_SEED", "0") or 0), "level": level, "coverage": cov,
+          "assumptions": assumptions, "wall_s": round(wall, 2), "violations": len(new)}
+    json.dump(ev, open(os.path.join(VERIF, "evidence", prop + ".json"), "w"), indent=1)
+    for k in sorted(uniq):
+        if k in known:
+            print("KNOWN-FINDING: property=%s %s %s" % (prop, k, known[k].get("what", uniq[k]["msg"])))
+    rc = 0
+    os.makedirs(os.path.join(VERIF, "replays"), exist_ok=True)
+    for k, v in sorted(new.items()):
+        h = hashlib.sha256(k.encode()).hexdigest()[:10]
+        path = os.path.join(VERIF, "replays", "%s-%s.json" % (prop, h))
+        rep = dict(v.get("replay", {}))
+        rep.update({"property": prop, "harness": harness, "tier": tier, "key": k, "clause": v["clause"], "observed": v["msg"]})
+        json.dump(rep, open(path, "w"), indent=1)
+        print("VIOLATION property=%s replay=%s" % (prop, path))
+        print("  key: %s\n  %s" % (k, v["msg"]))
+        rc = 1
+    return rc
+
+
+def check_c18(tier):
+    t0 = time.time()
+    exe = native_build_c18()
+    sc = make_scratch_dir()
+    env = dict(os.environ)
+    env["ASAN_OPTIONS"] = "detect_leaks=0:abort_on_error=1"
+    env["UBSAN_OPTIONS"] = "halt_on_error=1:abort_on_error=1"
+    procs = []
+    for i in range(NPROC):
+        o = os.path.join(sc, "c18-%d.json" % i)
+        procs.append((o, subprocess.Popen([exe, "run", tier, str(i), str(NPROC), o], env=env, stdout=subprocess.DEVNULL, stderr=subprocess.PIPE)))
+    stats, viols, msgs = [], [], []
+    for o, p in procs:
+        _, e = p.communicate()
+        if p.returncode != 0:
+            msgs.append("worker exited with %d: %s" % (p.returncode, e.decode(errors="replace")[-1500:]))
+            viols.append({"clause": "crash", "key": "h_c18|clause=crash", "msg": "the harness process died (sanitizer report or signal): " + e.decode(errors="replace")[-600:].replace("\n", " | "),
+                          "replay": {"note": "re-run: run.py check C18"}})
+        if os.path.exists(o):
+            stats.append(json.load(open(o)))
+    shutil.rmtree(sc, ignore_errors=True)
+    hits = {}
+    samples = []
+    for s in stats:
+        for k, v in s["clause_hits"].items():
+            hits[k] = hits.get(k, 0) + v
+        for v in s["violations"]:
+            empty = "-" in v["argv_hex"].split(",")
+            key = "h_c18|%s|clause=%s" % ("empty-argument" if empty else "non-empty-arguments", v["clause"])
+            viols.append({"clause": v["clause"], "key": key, "msg": v["msg"] + " (argv in hex: " + v["argv_hex"] + ")", "replay": {"argv_hex": v["argv_hex"]}})
+    vectors = sum(s["vectors"] for s in stats)
+    envs = sum(s["env_cases"] for s in stats)
+    mb = sum(s["multibyte"] for s in stats)
+    cov = {"states": vectors + envs + mb, "transitions": vectors + envs + mb, "traces_validated_against_impl": vectors + envs + mb,
+           "evaluations": vectors + envs + mb, "distinct_nontrivial": hits.get("needed-quoting", 0) and (vectors + envs),
+           "rule": "one evaluation = one argument vector (or environment list) pushed through the real process_start() of process.windows.c with a recording "
+                   "CreateProcessW; every vector of the stated alphabet and lengths is enumerated once (distinct by construction); the recorded command line is "
+                   "split again with an independent implementation of the documented CommandLineToArgvW/MSVCRT rules",
+           "exhaustive": len(stats) == NPROC and not msgs,
+           "bounds": {"alphabet": "a space tab newline vtab doublequote backslash", "quick": "1 arg <=6, 2 args <=3, 3 args <=2 bytes", "thorough": "1 arg <=8, 2 args <=4, 3 args <=3 bytes",
+                      "argv0": ["prog", "my prog"]},
+           "clause_hits": hits, "vectors": vectors, "environment_cases": envs, "multibyte_cases": mb, "worker_messages": msgs[:5],
+           "samples": [{"argv": ["prog", "a b", "c\\\\", "\"q\""], "note": "each vector is checked for round trip, the buffers under ASan"},
+                       {"violations_sample": [v for s in stats for v in s["violations"]][:3]}]}
+    rc = finish_native("C18", tier, "model_checking", cov, viols, time.time() - t0,
+                       ["the Windows sources run on Linux against stub Win32 functions (winstub/windows.h); wchar_t is 4 bytes here, one UTF-16 code unit per element",
+                        "the splitting oracle implements the post-2008 MSVCRT / CommandLineToArgvW rules"], "h_c18")
+    print("C18 %s: %d vectors, %d environment cases, %d multibyte cases, exhaustive=%s, %.1fs" % (tier, vectors, envs, mb, cov["exhaustive"], time.time() - t0))
+    return rc
+
+
+def make_scratch_dir():
+    base = "/dev/shm" if os.path.isdir("/dev/shm") and os.access("/dev/shm", os.W_OK) else BUILD
+    sc = os.path.join(base, "reproc-verif-n%d" % os.getpid())
+    shutil.rmtree(sc, ignore_errors=True)
+    os.makedirs(sc)
+    return sc
+
+
 def check(prop, tier):
+    if prop == "C18":
+        return check_c18(tier)
     t0 = time.time()
     known = [e for e in load_known() if e.get("property") == prop and e.get("status") == "known"]
     known_keys = {e["key"]: e for e in known}
@@ -355,6 +465,11 @@ def check(prop, tier):
 def replay(path):
     r = json.load(open(path))
     prop = r["property"]
+    if r.get("harness") == "h_c18":
+        exe = native_build_c18()
+        env = dict(os.environ)
+        env["ASAN_OPTIONS"] = "detect_leaks=0"
+        return subprocess.run([exe, "replay", r.get("argv_hex", "")], env=env).returncode
     variant = "plain"
     for h, v, _ in PROPS.get(prop, []):
         if h == r["harness"]:
@@ -378,6 +493,7 @@ def main():
     if cmd == "setup":
         for v in sorted({v for hs in PROPS.values() for _, v, _ in hs}):
             build(v)
+        native_build_c18()
         print("setup ok")
         return 0
     if cmd == "list":
